@@ -42,7 +42,7 @@ def shards(tier, seed):
     mk = ["C", "Ab", "F#"] if tier == "quick" else T.MAJOR_KEYS
     for k in mk:
         out.append({"name": "substitution-" + k, "kind": "subst", "key": k, "weight": 8,
-                    "depth2": 0 if tier == "quick" else 140})
+                    "depth2": 12 if tier == "quick" else 140})
     return out
 
 
@@ -78,6 +78,63 @@ def wellformed(s):
     if suf not in ("", "7") and suf not in chords.chord_shorthand:
         return None
     return (num, s[:i].count("#") - s[:i].count("b"), suf)
+
+
+MAJOR_DEG = {"I": 0, "II": 2, "III": 4, "IV": 5, "V": 7, "VI": 9, "VII": 11}
+_SIMPLE = [("I", "III"), ("I", "VI"), ("IV", "II"), ("IV", "VI"), ("V", "VII"), ("V", "VIIdim7"), ("V", "IIdim7"),
+           ("V", "IVdim7"), ("V", "bVIIdim7")]
+
+
+def _nskip(num, k):
+    return NUM[(NUM.index(num) + k) % 7]
+
+
+def substitute_model(num, pc, suf, depth):
+    """What `substitute` documents, in pitch-class space: (numeral, root pitch class relative to the tonic, suffix) of every
+    substitute of the chord (num, pc, suf); pc carries the accidental prefix. Independent of how prefixes are written."""
+    shift = (pc - MAJOR_DEG[num]) % 12
+    res = []
+    if suf in ("", "7"):
+        for a, b in _SIMPLE:
+            r = b if num == a else a if num == b else None
+            if r is None:
+                continue
+            own = r.count("#") - r.count("b") if r[0] in "#b" else 0
+            body = r.lstrip("#b")
+            rnum = body.rstrip("dim7") if body.endswith("dim7") else body
+            rs = body[len(rnum):]
+            rpc = (MAJOR_DEG[rnum] + own + shift) % 12
+            res.append((rnum, rpc, rs))
+            res.append((rnum, rpc, "7") if rs == "" else (rnum, rpc, rs[:-1]))
+    if suf in ("", "M", "m"):
+        res.append((num, pc, suf + "7"))
+    if suf in ("m", "m7"):
+        n = _nskip(num, 2)
+        res += [(n, (pc + 3) % 12, "M"), (n, (pc + 3) % 12, "M7")]
+    if suf in ("M", "M7"):
+        n = _nskip(num, 5)
+        res += [(n, (pc + 9) % 12, "m"), (n, (pc + 9) % 12, "m7")]
+    if suf in ("dim7", "dim"):
+        n = _nskip(num, 5)
+        res.append((n, (MAJOR_DEG[n] + shift) % 12, "dom7"))
+        res.append((_nskip(num, 1), (pc + 1) % 12, "dom7"))
+        last, q = num, pc
+        for _ in range(4):
+            last, q = _nskip(last, 2), (q + 3) % 12
+            res.append((last, q, suf))
+    out = list(res)
+    if depth > 0:
+        for (n2, p2, s2) in res:
+            out += substitute_model(n2, p2, s2, depth - 1)
+    return out
+
+
+def denote(r):
+    """(numeral, root pitch class relative to the tonic, suffix) a well-formed numeral string stands for"""
+    wf = wellformed(r)
+    if wf is None:
+        return None
+    return (wf[0], (MAJOR_DEG[wf[0]] + wf[1]) % 12, wf[2])
 
 
 def run(shard, ctx):
@@ -244,6 +301,22 @@ def run(shard, ctx):
                 ctx.check("substitution: diminished substitutes cycle by minor thirds", all(x == 3 for x in steps), w,
                           [3] * len(steps), steps, mechanism="dim-cycle")
 
+        def judge_substitute(s, res, depth, w):
+            # the substitutes of `substitute`, recursion included, against the pitch-class model (written prefixes are free,
+            # what a numeral denotes is not)
+            d0 = denote(s)
+            got = [denote(r) for r in res]
+            if d0 is None or any(g is None for g in got):
+                return      # ill-formed results are reported by judge_results
+            exp = substitute_model(d0[0], d0[1], d0[2], depth)
+            ok = sorted(got) == sorted(exp)
+            detail = None
+            if not ok:
+                detail = {"missing": [x for x in exp if x not in got][:4], "unexpected": [x for x in got if x not in exp][:4],
+                          "counts": [len(exp), len(got)]}
+            ctx.check("substitution: substitute (with its recursion) returns the numerals its rules denote", ok, w, None, detail,
+                      mechanism="substitute-model:depth%d" % depth)
+
         n = 0
         for num in NUM:
             for suf in sufs:
@@ -265,7 +338,7 @@ def run(shard, ctx):
                             ctx.case((rule, key, s, ign), nontrivial=True)
                             n += 1
                     for depth in (0, 1):
-                        if depth == 1 and (suf not in ("", "7", "m", "M", "dim", "dim7", "m7", "M7") or p not in (0, 1, -2)):
+                        if depth == 1 and suf not in ("", "7", "m", "M", "dim", "dim7", "m7", "M7"):
                             continue
                         arg = list(orig)
                         w = {"rule": "substitute", "progression": orig, "index": 0, "depth": depth, "key": key}
@@ -276,10 +349,11 @@ def run(shard, ctx):
                                   mechanism="mutated:substitute")
                         if ok:
                             judge_results("substitute", s, num, p, res, w)
+                            judge_substitute(s, res, depth, w)
                         ctx.case(("substitute", key, s, depth), nontrivial=True)
                         n += 1
         for i in range(shard["depth2"]):
-            s = pre(rng.randint(-2, 2)) + rng.choice(NUM) + rng.choice(["", "7", "m", "M", "dim", "dim7", "m7", "M7"])
+            s = pre(rng.randint(-3, 3)) + rng.choice(NUM) + rng.choice(["", "7", "m", "M", "dim", "dim7", "m7", "M7"])
             idx = rng.randrange(3)
             orig = ["I", "IV", "V"]
             orig[idx] = s
@@ -292,6 +366,7 @@ def run(shard, ctx):
             if ok:
                 wfp = wellformed(s)
                 judge_results("substitute", s, wfp[0], wfp[1], res, w)
+                judge_substitute(s, res, 2, w)
             ctx.case(("substitute2", key, tuple(orig), idx))
         # negative indices address the progression from its end
         for s in ("I", "V7", "IIm", "VIIdim7", "bIIIM"):
